@@ -52,7 +52,7 @@ struct FontInfo {
 
 fn static_outline_fonts() -> Vec<FontInfo> {
     let mut out = vec![];
-    for f in corpus::all_fonts() {
+    for f in corpus::all_fonts().into_iter().chain(corpus::c03_regress_fonts()) {
         let Ok(font) = read_fonts::FontRef::new(&f.data) else { continue };
         use read_fonts::types::Tag;
         let has = |t: &[u8; 4]| font.table_data(Tag::new(t)).is_some();
